@@ -82,3 +82,29 @@ def confirmed(binary, case, sig, check, tag="l1_confirm", tries=2):
         if not any(s2 == sig for s2, _, _ in check(ob)):
             return False
     return True
+
+
+def run_soak(ck, binary, rng, monitor, dist, only=None):
+    """Runs l1.soak_scenarios (long histories of valid requests) and applies monitor(case, intents, obs) -> failures;
+    the probe events at the end must be answered."""
+    for name, scase, sint, nprobe in l1.soak_scenarios(rng):
+        if only and not any(name.startswith(o) for o in only):
+            continue
+        try:
+            sob = run_harness(binary, "l1", [scase], tag="soak", timeout=900)[0].get("obs", [])
+        except HarnessError as e:
+            ck.fail("soak:harness-died", str(e)[-600:], {"input": {"cfg": scase["cfg"], "events": scase["events"][-8:]}, "soak": name})
+            continue
+        ck.count(["soak", name], True)
+        res = list(monitor(scase, sint, sob))
+        if any("panic" in o or o.get("blocked") for o in sob) and not res:
+            res.append(("agent-died", "the agent panicked or blocked during the soak", len(sob) - 1))
+        if not res:
+            for i in range(len(sob) - nprobe, len(sob)):
+                if not sob[i].get("replies"):
+                    res.append(("probe-unanswered", f"{name}: probe event {i} got no response after the soak", i))
+                    break
+        for sig, msg, i in res[:1]:
+            ck.fail(f"soak:{name}:{sig}", msg, {"soak": name, "n_events": len(scase["events"]), "impl_event": sob[i] if i < len(sob) else None,
+                                              "input": {"cfg": scase["cfg"], "events": scase["events"][:4] + scase["events"][-6:]}})
+        dist[f"soak/{name}:{'ok' if not res else 'failed'}"] = 1
